@@ -88,7 +88,8 @@ def regex_cache(ctx):
     for c in fam.candidates:
         # patterns that collide under a prefix key or a multiplicative hash, in one run, cache on vs off
         long = 'a' * 48
-        rows = [{'s': long + 'X', 'p': '^' + long + 'X$'}, {'s': long + 'X', 'p': '^' + long + 'Y$'}, {'s': 'Aa', 'p': 'Aa$'}, {'s': 'Aa', 'p': 'BB$'}, {'s': 'BB', 'p': 'Aa$'}]
+        rows = [{'s': long + 'X', 'p': '^' + long + 'X$'}, {'s': long + 'X', 'p': '^' + long + 'Y$'}, {'s': 'Aa', 'p': 'Aa$'}, {'s': 'Aa', 'p': 'BB$'}, {'s': 'BB', 'p': 'Aa$'},
+                {'s': 'abc', 'p': '^\\w{1,64}$'}, {'s': 'abc', 'p': '^[\\p{L}\\p{N}]{1,200}$'}, {'s': 'ABC', 'p': '(?i)^abc$'}, {'s': 'abc', 'p': '^\\w{1,64}$'}]
         stdin = ' '.join(json.dumps(r) for r in rows).encode()
         outs = {}
         for size in ('0', '1', '2', '64'):
@@ -339,3 +340,134 @@ def value_order_arms(ctx):
         exp = sorted(arr, key=functools.cmp_to_key(pycmp))
         c.replay = {'argv': ['--select', '(sort .)=r'], 'stdin': arr, 'expected': exp, 'actual': got}
         c.status = 'reproduced' if got != exp else 'unit'
+
+
+# ---------------------------------------------------------------- :var / @macro evaluation
+def variable_get(ctx):
+    """VariableExtructor::get: `:n` reads the variable n of the current context; `@n` evaluates the stored getter in the
+    *current* context itself (so ^ inside a macro body means what it means at the call site)"""
+    run = ctx.run
+    fam = run.family('bind.variable_get', '`:n` is the value bound to n in the current context; `@n` evaluates the macro body in the current context (same input, same parents, same bindings)')
+    VT = ctx.enums['variables_extractor::Type']
+    def s_get_def(ex, st, func, args, ty):
+        out = []
+        for present in (True, False):
+            s2 = st.clone(); s2.events.append(('get_definition', origin(s2, args[0]), origin(s2, args[1]), present))
+            out.append((s2, some(s2, slot(s2, named(s2, 'MACRO_BODY', 'Rc<dyn Get>'))) if present else none(s2)))
+        return out
+    def s_get_var(ex, st, func, args, ty):
+        out = []
+        for present in (True, False):
+            s2 = st.clone(); s2.events.append(('get_variable', origin(s2, args[0]), origin(s2, args[1]), present))
+            out.append((s2, some(s2, slot(s2, named(s2, 'VARIABLE_VALUE', 'JsonValue'))) if present else none(s2)))
+        return out
+    def dyn_get(ex, st, func, args, ty):
+        st.events.append(('eval', origin(st, args[0]), origin(st, args[1])))
+        out = []
+        for present in (True, False):
+            s2 = st.clone(); out.append((s2, some(s2, named(s2, 'MACRO_RESULT', 'JsonValue')) if present else none(s2)))
+        return out
+    def s_and_then(ex, st, func, args, ty):
+        """Option::and_then(|f| f.get(value)): run the closure body on the payload"""
+        o = args[0]; d = ex.discr(st, o).t; out = []
+        if ex.feasible(st, d == 0):
+            s2 = st.clone(); s2.pc.append(d == 0); out.append((s2, none(s2)))
+        if ex.feasible(st, d == 1):
+            s2 = st.clone(); s2.pc.append(d == 1)
+            cb = [n for n in ex.fns if re.search(r'variables_extractor::<impl at [^>]*>::get::\{closure#0\}$', n)]
+            if len(cb) != 1: raise Broken(f'macro closure: {cb}')
+            saved = s2.frames; s2.frames = []
+            s2.status = 'running'; ex.new_frame(s2, ex.fns[cb[0]], [args[1], ex.load(s2, o.oid, ('f', 'Some', 0), 'opaque')])
+            for r_ in ex.run(s2):
+                if r_.status == 'returned':
+                    r_.frames = [dict(f) for f in saved]; r_.status = 'running'; out.append((r_, r_.ret))
+        return out
+    summ = [(r'Context::get_definition$', s_get_def), (r'Context::get_variable_value$', s_get_var), (r'<dyn Get as Get>::get$', dyn_get),
+            (r'Option::<.*>::and_then::<', s_and_then), (r'Option::<.*>::cloned$', lambda ex, st, f, a, t: [(st, a[0])]), (r'as Deref>::deref$', s_identity)]
+    ex = ctx.exec(summaries=summ, max_visits=10)
+    F = ex.find(r'^variables_extractor::<impl at [^>]*>::get$')
+    VE = ctx.structs['VariableExtructor']
+    for vt, vname in enumerate(VT):
+        st = State(); so = st.new_obj('self', 'VariableExtructor'); selfref = slot(st, ObjV(so), 'self*')
+        st.heap[so][('f', None, VE.index('name'))] = named(st, 'NAME', 'String')
+        st.heap[so][('f', None, VE.index('variable_type'))] = mk_enum(st, 'variables_extractor::Type', vt)
+        c = named(st, 'CTX', 'Context')
+        ex.new_frame(st, F, [selfref, slot(st, c, 'ctx*')])
+        for d in ex.run(st):
+            run.paths += 1
+            if d.status == 'infeasible': continue
+            fam.obligations += 1; fam.witnesses += 1; fam.paths += 1
+            why = None
+            if d.status != 'returned': why = f'{d.status} {d.notes[-1:]}'
+            else:
+                evs = d.events; r = obj(d, d.ret); rd = cval(ex.discr(d, r).t)
+                if vname == 'Variable':
+                    g = [e for e in evs if e[0] == 'get_variable']
+                    if len(g) != 1 or g[0][1] != 'CTX' or g[0][2] != 'NAME' or any(e[0] in ('eval', 'get_definition') for e in evs): why = f'does not read variable NAME of the current context: {evs}'
+                    elif g[0][3] != (rd == 1) or (rd == 1 and origin(d, d.heap[r.oid][('f', 'Some', 0)]) != 'VARIABLE_VALUE'): why = 'does not return the bound value'
+                else:
+                    g = [e for e in evs if e[0] == 'get_definition']; ev = [e for e in evs if e[0] == 'eval']
+                    if len(g) != 1 or g[0][1] != 'CTX' or g[0][2] != 'NAME': why = f'does not look macro NAME up in the current context: {evs}'
+                    elif g[0][3] and (len(ev) != 1 or ev[0][1] != 'MACRO_BODY' or ev[0][2] != 'CTX'): why = f'the macro body is not evaluated in the current context: {ev}'
+                    elif not g[0][3] and (ev or rd != 0): why = 'an unbound macro does not give nothing'
+            if why is None: fam.discharged += 1; fam.add_sample({'kind': vname, 'events': [e[:3] for e in d.events], 'verdict': 'as specified'})
+            elif not any(c_.role == f'get-{vname}' for c_ in fam.candidates):
+                fam.candidates.append(Candidate(fam.name, f'get-{vname}', f'{":" if vname == "Variable" else "@"}NAME: {why}', {'kind': vname}, unmodelled=(d.havoc or [None])[0]))
+    run.absorb(ex)
+    from .cli import run_jawk, show
+    DEMOS = [(['--set', '@m=^.name', '--select', '(map .l @m)=r'], '{"name":"n","l":[1,2]}', {'r': ['n', 'n']}), (['--select', '(define "m" ^.name (map .l @m))=r'], '{"name":"n","l":[1]}', {'r': ['n']}),
+             (['--set', 'v=5', '--select', '(default :v)=r'], '1', {'r': 5}), (['--set', '@m=(+ . 1)', '--select', '(default @m)=r'], '4', {'r': 5}),
+             (['--split-by', '.l', '--set', '@m=^.name', '--select', '(default @m)=r'], '{"name":"n","l":[1]}', {'r': 'n'})]
+    for c in fam.candidates:
+        c.status = 'unit'
+        for argv, stdin, exp in DEMOS:
+            r = run_jawk(ctx, argv + ['--style', 'consise'], stdin.encode())
+            try: got = json.loads(show(r['stdout']))
+            except Exception: got = show(r['stdout'])
+            c.replay = {'argv': argv, 'stdin': stdin, 'expected': exp, 'actual': got}
+            if got != exp: c.status = 'reproduced'; break
+
+
+# ---------------------------------------------------------------- every function name and alias is read back whole
+def function_names(ctx):
+    """read_function_name on `(NAME 1)` for every name and alias declared in src/functions: the name read is NAME itself,
+    whatever punctuation it contains ([], {}, ?, |, <=, ...). Concrete execution of the MIR over the finite alias table."""
+    import glob, os
+    from .scen_expr import expr_scenario
+    run = ctx.run
+    names = set()
+    for p in glob.glob(os.path.join(ctx.tree.src, 'src', 'functions', '**', '*.rs'), recursive=True):
+        txt = open(p).read()
+        for m in re.finditer(r'FunctionDefinitions::new\(\s*"((?:[^"\\]|\\.)*)"', txt): names.add(m.group(1))
+        for m in re.finditer(r'\.add_alias\(\s*"((?:[^"\\]|\\.)*)"\s*\)', txt): names.add(m.group(1))
+    names = sorted(n.encode().decode('unicode_escape') for n in names)
+    fam = run.family('expr.function_names', f'every declared function name and alias ({len(names)}) is read back whole by the function-name reader, so every alias reaches find_function as written')
+    fam.need_witness = False
+    run.bounds['function names'] = f'the {len(names)} names and aliases declared under src/functions, each as `(NAME 1)` and `(NAME,1)`'
+    bad = []
+    for nm in names:
+        for sep in (b' ', b','):
+            text = b'(' + nm.encode() + sep + b'1)'
+            sc = expr_scenario(ctx, [z3.BitVecVal(b, 8) for b in text], [])
+            ex = sc.ex; st, info = sc.initial(arbitrary=False)
+            F = ex.find(r'^read_getter$')
+            ex.new_frame(st, F, [info['rref']])
+            outs = [d for d in ex.run(st) if d.status != 'infeasible']
+            fam.obligations += 1; run.paths += len(outs)
+            ff = [e for d in outs for e in d.events if e[0] == 'find_function']
+            got = set(bytes(cval(b) for b in e[1]).decode('latin-1') for e in ff)
+            exp = nm[1:] if nm.startswith('.') and len(nm) > 1 else nm
+            if got == {exp} or (nm.startswith('.') and got == {nm[1:]}): fam.discharged += 1
+            else: bad.append((nm, sorted(got)))
+            run.queries += ex.queries; run.solver_s += ex.solver_s
+            for b in ex.used_bodies: run.functions[b] = True
+    if bad:
+        nm, got = bad[0]
+        c = Candidate(fam.name, 'name-cut', f'the function name `{nm}` is read as {got} (and {len(bad) - 1} more)', {'name': nm, 'all': bad[:10]})
+        fam.candidates.append(c)
+        from .cli import run_jawk, show
+        r = run_jawk(ctx, ['--select', f'({nm} [5,6] 1)=r' if nm in ('[]', 'get') else f'({nm} 1 1)=r'], b'null')
+        c.replay = {'argv': ['--select', f'({nm} ...)'], 'rc': r['rc'], 'stderr': show(r['stderr'])[-200:]}
+        c.status = 'reproduced' if r['rc'] != 0 and b'unknwon' in r['stderr'] else 'unit'
+    else:
+        fam.add_sample({'names': names[:12], 'verdict': 'each read back whole'})
